@@ -13,7 +13,10 @@ Lemma c20_begin_in_handle_fact : c20_begin_in_handle = true. Proof. reflexivity.
 Lemma c20_wait_in_wrapper_fact : c20_wait_in_wrapper = true. Proof. reflexivity. Qed.
 Lemma c20_register_in_handle_fact : c20_register_in_handle = true. Proof. reflexivity. Qed.
 Lemma deployed_current : deployed = Current.
-Proof. unfold deployed. rewrite c20_begin_in_handle_fact, c20_wait_in_wrapper_fact. reflexivity. Qed.
+Proof.
+  unfold deployed.
+  rewrite c20_begin_in_handle_fact, c20_wait_in_wrapper_fact, c20_register_in_handle_fact. reflexivity.
+Qed.
 
 (* ---- small facts ------------------------------------------------------------------------ *)
 Lemma nth_app_mono {A : Type} (l : list A) (a : A) k f :
@@ -924,6 +927,321 @@ Example retry_after_refused_example :
   [WHandled (proven_ident ex_ini)].
 Proof. repeat split; vm_compute; reflexivity. Qed.
 
+(* ---- mutual dial --------------------------------------------------------------------------------- *)
+Lemma c20_begin_in_connect_fact : c20_begin_in_connect = true. Proof. reflexivity. Qed.
+Lemma ob_deployed_true : ob_deployed = true. Proof. exact c20_begin_in_connect_fact. Qed.
+
+Ltac msimp :=
+  cbn [base b_begun b_reg a_ret bw set_base set_b_begun set_b_reg set_a_ret set_bw] in *.
+
+(* once the responder has registered the initiator, the initiator has written its final message *)
+Lemma registered_ipc c w id :
+  Inv c w -> registered w = Some id ->
+  exists j, (ipc w = IReturn j \/ ipc w = IOpen j).
+Proof.
+  intros (Hi & (Hr & _) & _) E.
+  assert (P : passed c w).
+  { destruct (rpc w); unfold quiet in Hr; dest; try congruence.
+    - destruct H0 as [(id' & _ & _ & _ & _ & P)|(B & _)]; [exact P|congruence].
+    - destruct H0 as [(id' & _ & _ & _ & _ & P)|(B & _)]; [exact P|congruence]. }
+  destruct P as (f & Hf & _). destruct Hi as (Hi & _).
+  destruct (ipc w); dest; eauto;
+    match goal with Hq : i2r w = _ |- _ => rewrite Hq in Hf end; cbn in Hf; discriminate.
+Qed.
+
+Lemma registered_stable c w a id :
+  Inv c w -> registered w = Some id -> registered (step Current c w a) = Some id.
+Proof.
+  intros HI E. destruct a as [| |k|]; cbn [step]; auto.
+  - pose proof (step_i_frame c w) as F. cbv zeta in F. dest. congruence.
+  - destruct HI as (_ & (Hr & _) & _). unfold step_r.
+    destruct (rpc w); unfold quiet in Hr; dest; try congruence; simp; auto;
+      repeat match goal with
+             | |- context [match ?x with _ => _ end] => destruct x; simp; auto
+             end.
+Qed.
+
+Definition minv_w1 (m : mworld) (s : wstate) : Prop :=
+  match s with
+  | WNew | WWait => True
+  | WLook2 => exists id, ipc (base m) = IOpen id
+  | WHandled id => b_reg m = Some id
+  | WUnknown | WTorn => False
+  end.
+
+Definition MInv (c : cfg) (m : mworld) : Prop :=
+  Inv c (base m) /\
+  (b_begun m = false -> ipc (base m) = IWriteReq) /\
+  (match b_reg m with
+   | Some id => ipc (base m) = IReturn id \/ ipc (base m) = IOpen id
+   | None => forall id, ipc (base m) <> IOpen id
+   end) /\
+  (forall id, a_ret m = Some id -> registered (base m) = Some id) /\
+  (bw m <> [] -> a_ret m <> None) /\
+  Forall (minv_w1 m) (bw m).
+
+Lemma minv_init c : MInv c minit.
+Proof.
+  unfold MInv; cbn. split; [apply inv_init|]. repeat split; auto; try discriminate.
+  all: intros; try discriminate; try contradiction.
+Qed.
+
+Lemma minv_w_transport m m' l :
+  b_reg m' = b_reg m ->
+  (forall id, ipc (base m) = IOpen id -> ipc (base m') = IOpen id) ->
+  Forall (minv_w1 m) l -> Forall (minv_w1 m') l.
+Proof.
+  intros E2 E3 H. eapply Forall_impl; [|exact H].
+  intros s; destruct s; cbn; auto; try congruence. intros (id & Hid). eauto.
+Qed.
+
+Lemma step_i_ipc_open c w id : ipc w = IOpen id -> ipc (step_i c w) = IOpen id.
+Proof. intros E. unfold step_i. rewrite E. simp. exact E. Qed.
+
+Lemma step_i_to_open c w id :
+  ipc (step_i c w) = IOpen id -> ipc w = IReturn id \/ ipc w = IOpen id.
+Proof.
+  unfold step_i. destruct (ipc w) eqn:E;
+    repeat match goal with
+           | |- context [match ?x with _ => _ end] => destruct x
+           end; simp; try discriminate; intros [= <-]; auto.
+Qed.
+
+(* the base step of B keeps everything the mutual part relies on *)
+Lemma mbase_i c m :
+  MInv c m -> b_begun m = true ->
+  (forall id, ipc (base m) = IReturn id -> b_reg m = Some id) ->
+  MInv c (set_base (step_i c (base m)) m).
+Proof.
+  intros (HI & H2 & H3 & H4 & H5 & H6) Eb Hadd.
+  pose proof (step_inv c (base m) I HI) as HI'. cbn [step] in HI'.
+  pose proof (step_i_frame c (base m)) as F. cbv zeta in F. dest.
+  unfold MInv; msimp. split; [exact HI'|]. split; [congruence|]. split; [|split; [|split]]; auto.
+  - destruct (b_reg m) as [id|] eqn:Er.
+    + destruct H3 as [H3|H3].
+      * right. unfold step_i. rewrite H3. reflexivity.
+      * right. apply step_i_ipc_open; auto.
+    + intros id Hc. apply step_i_to_open in Hc. destruct Hc as [Hc|Hc].
+      * apply Hadd in Hc. congruence.
+      * apply (H3 id); auto.
+  - intros id Ha. rewrite <- (H4 _ Ha). congruence.
+  - eapply minv_w_transport; [| |exact H6]; msimp; auto. intros id. apply step_i_ipc_open.
+Qed.
+
+Lemma mstep_b_inv c m : MInv c m -> MInv c (mstep_b c m).
+Proof.
+  intros HM. pose proof HM as (HI & H2 & H3 & H4 & H5 & H6). unfold mstep_b.
+  destruct (b_begun m) eqn:Eb; cbn [negb].
+  - destruct (ipc (base m)) eqn:Ep; try (apply mbase_i; auto; intros; congruence).
+    destruct (b_reg m) eqn:Er.
+    + apply mbase_i; auto. intros id0 E0. rewrite Ep in E0. injection E0 as <-.
+      destruct H3 as [H3|H3]; congruence.
+    + unfold MInv; msimp. split; [exact HI|]. repeat split; auto; try congruence.
+      eapply Forall_impl; [|exact H6]. intros s; destruct s; cbn; auto; congruence.
+  - unfold MInv; msimp. split; [exact HI|]. repeat split; auto; try discriminate.
+Qed.
+
+Lemma mbase_other c m a :
+  MInv c m -> a <> I ->
+  MInv c (set_base (step Current c (base m) a) m).
+Proof.
+  intros (HI & H2 & H3 & H4 & H5 & H6) Ha.
+  pose proof (step_inv c (base m) a HI) as HI'.
+  assert (Ei : ipc (step Current c (base m) a) = ipc (base m)).
+  { destruct a as [| |k|]; cbn [step]; auto; try contradiction.
+    pose proof (step_r_frame Current c (base m)) as F. cbv zeta in F. tauto. }
+  unfold MInv; msimp. rewrite Ei. split; [exact HI'|]. repeat split; auto.
+  - intros id E. apply registered_stable; auto.
+  - eapply minv_w_transport; [| |exact H6]; msimp; auto. congruence.
+Qed.
+
+Lemma mstep_bw1_ok c m s :
+  MInv c m -> bw m <> [] -> minv_w1 m s -> minv_w1 m (mstep_bw1 true m s).
+Proof.
+  intros (HI & H2 & H3 & H4 & H5 & H6) Hn Hs.
+  destruct s; cbn [mstep_bw1]; auto.
+  - destruct (b_reg m) eqn:Er; cbn; auto.
+  - destruct (Nat.eqb (b_inflight true m) 0) eqn:E0; cbn; auto.
+    apply Nat.eqb_eq in E0.
+    destruct (a_ret m) as [id|] eqn:Ea; [|exfalso; apply (H5 Hn); reflexivity].
+    destruct (registered_ipc c (base m) id HI (H4 _ eq_refl)) as (j & Hj).
+    unfold b_inflight in E0. cbn [andb] in E0.
+    destruct (b_begun m) eqn:Eb.
+    + destruct Hj as [Hj|Hj]; rewrite Hj in E0; [discriminate|eauto].
+    + rewrite (H2 eq_refl) in Hj. destruct Hj; discriminate.
+  - cbn in Hs. destruct Hs as (id & Hid).
+    destruct (b_reg m) eqn:Er; cbn; auto. apply (H3 id); auto.
+Qed.
+
+Theorem mstep_inv c m a : MInv c m -> MInv c (mstep true c m a).
+Proof.
+  intros HM. destruct a as [| |k| | |k]; cbn [mstep].
+  - apply mstep_b_inv; auto.
+  - apply (mbase_other c m R); auto. discriminate.
+  - apply (mbase_other c m (W k)); auto. discriminate.
+  - pose proof HM as (HI & H2 & H3 & H4 & H5 & H6). unfold mstep_c.
+    destruct (a_ret m) eqn:Ea; [exact HM|].
+    destruct (registered (base m)) eqn:Er; [|exact HM].
+    unfold MInv; msimp. split; [exact HI|]. repeat split; auto; try congruence.
+  - pose proof HM as (HI & H2 & H3 & H4 & H5 & H6). unfold mstep_o.
+    destruct (a_ret m) eqn:Ea; [|exact HM].
+    unfold MInv; msimp. rewrite Ea. split; [exact HI|]. repeat split; auto; try congruence.
+    apply Forall_app; split.
+    + eapply Forall_impl; [|exact H6]. intros s; destruct s; cbn; auto.
+    + constructor; [cbn; auto|constructor].
+  - pose proof HM as (HI & H2 & H3 & H4 & H5 & H6).
+    unfold MInv; msimp. split; [exact HI|]. repeat split; auto.
+    + intros Hn. apply H5. eapply upd_nil_inv; eauto.
+    + destruct (bw m) eqn:Ew; [destruct k; constructor|].
+      assert (Hne : bw m <> []) by congruence. rewrite <- Ew.
+      assert (E : forall s, minv_w1 (set_bw (upd k (mstep_bw1 true m) (bw m)) m) s <-> minv_w1 m s).
+      { intros s; destruct s; cbn; tauto. }
+      eapply Forall_impl; [intros s Hs; apply E; exact Hs|].
+      apply upd_Forall; [|rewrite Ew; exact H6].
+      intros s Hs. apply (mstep_bw1_ok c); auto.
+Qed.
+
+Theorem mrun_from_inv c sched : forall m, MInv c m -> MInv c (mrun_from true c m sched).
+Proof.
+  induction sched as [|a l IH]; intros m H; cbn; auto. apply IH. apply mstep_inv. exact H.
+Qed.
+Theorem mrun_inv c sched : MInv c (mrun true c sched).
+Proof. apply mrun_from_inv. apply minv_init. Qed.
+
+(* C20 for the mutual dial, every schedule: once A's Connect(B) has reported success (through
+   the shortcut), it named B's proven identity, and no stream A opened is refused by B; what
+   reached B's handlers carries A's proven identity *)
+Theorem usable_mutual c sched id :
+  a_ret (mrun true c sched) = Some id ->
+  (id = proven_ident (ini c) /\ sig_addr (ini c) = Some (pid_addr (ini c))) /\
+  Forall (fun s => s <> WUnknown /\ s <> WTorn /\
+                   forall j, s = WHandled j ->
+                             j = proven_ident (rsp c) /\ sig_addr (rsp c) = Some (pid_addr (rsp c)))
+         (bw (mrun true c sched)).
+Proof.
+  intros Ea. destruct (mrun_inv c sched) as (HI & H2 & H3 & H4 & H5 & H6).
+  set (m := mrun true c sched) in *. split.
+  - pose proof (H4 _ Ea) as Er.
+    assert (V : vI c id).
+    { destruct HI as (_ & (Hr & _) & _).
+      destruct (rpc (base m)); unfold quiet in Hr; dest; try congruence.
+      - destruct H0 as [(id' & R1 & R2 & _)|(B & _)]; congruence.
+      - destruct H0 as [(id' & R1 & R2 & _)|(B & _)]; congruence. }
+    apply verify_req_self in V. tauto.
+  - eapply Forall_impl; [|exact H6]. intros s Hs.
+    destruct s as [| | |j0| |]; cbn in Hs; try contradiction;
+      (split; [discriminate|]; split; [discriminate|]); intros j Ej; try discriminate.
+    injection Ej as <-. rewrite Hs in H3. destruct HI as ((Hi & _) & _).
+    destruct H3 as [H3|H3]; rewrite H3 in Hi; dest;
+      match goal with V : vR c _ |- _ => apply verify_req_self in V; tauto end.
+Qed.
+
+(* progress: once B has taken its two remaining steps (addPeer, return) and the wrapper of the
+   k-th stream its three, the stream is with B's handler under A's proven identity *)
+Lemma mstep_b_base c m :
+  b_begun m = true -> (forall id, ipc (base m) = IReturn id -> b_reg m <> None) ->
+  mstep_b c m = set_base (step_i c (base m)) m.
+Proof.
+  intros Eb H. unfold mstep_b. rewrite Eb. cbn [negb].
+  destruct (ipc (base m)) eqn:E; auto. destruct (b_reg m) eqn:Er; auto.
+  exfalso. eapply H; eauto.
+Qed.
+
+Lemma mstep_b_add c m id :
+  b_begun m = true -> ipc (base m) = IReturn id -> b_reg m = None -> mstep_b c m = set_b_reg id m.
+Proof. intros Eb E Er. unfold mstep_b. rewrite Eb, E, Er. reflexivity. Qed.
+
+Lemma mb_two c m j :
+  MInv c m -> b_begun m = true ->
+  (ipc (base m) = IReturn j \/ ipc (base m) = IOpen j) ->
+  let m' := mstep_b c (mstep_b c m) in
+  ipc (base m') = IOpen j /\ b_reg m' = Some j /\ bw m' = bw m /\ b_begun m' = true.
+Proof.
+  intros (HI & H2 & H3 & H4 & H5 & H6) Eb [E|E]; cbv zeta.
+  - assert (Eo : ipc (step_i c (base m)) = IOpen j) by (unfold step_i; rewrite E; reflexivity).
+    destruct (b_reg m) as [id|] eqn:Er.
+    + assert (id = j) as -> by (destruct H3 as [H3|H3]; congruence).
+      rewrite (mstep_b_base c m) by (auto; intros; congruence).
+      rewrite mstep_b_base by (msimp; auto; intros; msimp; congruence). msimp.
+      rewrite (step_i_ipc_open _ _ _ Eo). auto.
+    + rewrite (mstep_b_add c m j) by auto.
+      rewrite mstep_b_base by (msimp; auto; intros; msimp; congruence). msimp. auto.
+  - destruct (b_reg m) as [id|] eqn:Er; [|exfalso; apply (H3 j); auto].
+    assert (id = j) as -> by (destruct H3 as [H3|H3]; congruence).
+    pose proof (step_i_ipc_open c _ _ E) as Eo.
+    rewrite (mstep_b_base c m) by (auto; intros; congruence).
+    rewrite mstep_b_base by (msimp; auto; intros; msimp; congruence). msimp.
+    rewrite (step_i_ipc_open _ _ _ Eo). auto.
+Qed.
+
+Lemma mstep_bw1_fields ob m l s : mstep_bw1 ob (set_bw l m) s = mstep_bw1 ob m s.
+Proof. destruct s; reflexivity. Qed.
+
+Lemma mbw_nth ob c k m s :
+  nth_error (bw m) k = Some s ->
+  nth_error (bw (mstep ob c m (MBW k))) k = Some (mstep_bw1 ob m s).
+Proof. intros H. cbn [mstep]. msimp. apply upd_nth_same; auto. Qed.
+
+Theorem mutual_handled_eventually c sched k :
+  (k < length (bw (mrun true c sched)))%nat ->
+  nth_error (bw (mrun true c (sched ++ [MB; MB] ++ [MBW k; MBW k; MBW k]))) k =
+  Some (WHandled (proven_ident (rsp c))).
+Proof.
+  intros Hk. pose proof (mrun_inv c sched) as HM. unfold mrun, mrun_from in *. rewrite !fold_left_app.
+  set (m := fold_left (mstep true c) sched minit) in *.
+  assert (Hne : bw m <> []) by (destruct (bw m); cbn in Hk; [lia|discriminate]).
+  pose proof HM as (HI & H2 & H3 & H4 & H5 & H6).
+  destruct (a_ret m) as [id|] eqn:Ea; [|exfalso; apply (H5 Hne); reflexivity].
+  destruct (registered_ipc c (base m) id HI (H4 _ eq_refl)) as (j & Hj).
+  assert (Eb : b_begun m = true).
+  { destruct (b_begun m) eqn:Eb; auto. rewrite (H2 eq_refl) in Hj. destruct Hj; discriminate. }
+  cbn [fold_left app].
+  change (mstep true c (mstep true c m MB) MB) with (mstep_b c (mstep_b c m)).
+  destruct (mb_two c m j HM Eb Hj) as (Eo & Er & Ew & Eb').
+  pose proof (mstep_b_inv c _ (mstep_b_inv c m HM)) as HM'.
+  set (m' := mstep_b c (mstep_b c m)) in *.
+  assert (Ej : j = proven_ident (rsp c)).
+  { destruct HM' as (((Hi & _) & _) & _). rewrite Eo in Hi. dest.
+    match goal with V : vR c _ |- _ => apply verify_req_self in V; tauto end. }
+  destruct (nth_error (bw m') k) as [s|] eqn:Es;
+    [|apply nth_error_None in Es; rewrite Ew in Es; lia].
+  assert (Hs : minv_w1 m' s).
+  { destruct HM' as (_ & _ & _ & _ & _ & F). rewrite Forall_forall in F.
+    apply F. eapply nth_error_In; eauto. }
+  pose proof (mbw_nth true c k m' s Es) as N1.
+  pose proof (mbw_nth true c k _ _ N1) as N2.
+  pose proof (mbw_nth true c k _ _ N2) as N3.
+  rewrite N3. f_equal. cbn [mstep]. rewrite !mstep_bw1_fields.
+  assert (E0 : b_inflight true m' = 0%nat).
+  { unfold b_inflight. rewrite Eb', Eo. reflexivity. }
+  subst j.
+  destruct s; cbn in Hs; try contradiction; cbn [mstep_bw1]; rewrite ?Er, ?E0; cbn; rewrite ?Er; auto.
+  congruence.
+Qed.
+
+(* the code without the outbound bracket (/repo before 4c5edc2): refuted *)
+Theorem usable_mutual_v1_refuted :
+  exists c sched id,
+    well_formed (ini c) /\ well_formed (rsp c) /\
+    a_ret (mrun false c sched) = Some id /\
+    b_reg (mrun false c (sched ++ [MB; MB])) = Some (proven_ident (rsp c)) /\
+    nth_error (bw (mrun false c sched)) 0 = Some WUnknown.
+Proof.
+  exists ex_cfg, (msched_held 1 ++ [MBW 0; MBW 0]), (11, t_bidder). unfold well_formed.
+  repeat split; vm_compute; reflexivity.
+Qed.
+
+Example usable_mutual_nonvacuous :
+  a_ret (mrun true ex_cfg (msched_held 2)) = Some (proven_ident ex_ini) /\
+  bw (mrun true ex_cfg (msched_held 2 ++ m_rests 2)) = [WWait; WWait] /\
+  b_inflight true (mrun true ex_cfg (msched_held 2)) = 1%nat /\
+  b_reg (mrun true ex_cfg (msched_held 2)) = None /\
+  bw (mrun true ex_cfg (msched_first_lookup_before 2)) =
+  [WHandled (proven_ident ex_rsp); WHandled (proven_ident ex_rsp)] /\
+  bw (mrun true ex_cfg (msched_all_before 2 ++ m_rests 2)) =
+  [WHandled (proven_ident ex_rsp); WHandled (proven_ident ex_rsp)].
+Proof. repeat split; vm_compute; reflexivity. Qed.
+
 (* ---- another connection of the same peer closing is invisible ------------------------------------ *)
 Lemma conn_close_other_inert v c s1 s2 :
   run v c (s1 ++ ConnCloseOther :: s2) = run v c (s1 ++ s2).
@@ -1025,6 +1343,31 @@ Qed.
 Lemma forget_registration_id w : registered w = None -> forget_registration w = w.
 Proof. destruct w; cbn. intros ->. reflexivity. Qed.
 
+Lemma C20_mutual_stmt : forall (c : cfg) (sched : list mwho) (id : ident),
+  a_ret (mrun ob_deployed c sched) = Some id ->
+  (id = (pid_addr (ini c), ptype (ini c)) /\ sig_addr (ini c) = Some (pid_addr (ini c))) /\
+  Forall (fun s => s <> WUnknown /\ s <> WTorn /\
+                   forall j, s = WHandled j ->
+                             j = (pid_addr (rsp c), ptype (rsp c)) /\
+                             sig_addr (rsp c) = Some (pid_addr (rsp c)))
+         (bw (mrun ob_deployed c sched)).
+Proof. rewrite ob_deployed_true. exact usable_mutual. Qed.
+
+Lemma C20_mutual_eventually_stmt : forall (c : cfg) (sched : list mwho) (k : nat),
+  (k < length (bw (mrun ob_deployed c sched)))%nat ->
+  nth_error (bw (mrun ob_deployed c (sched ++ [MB; MB] ++ [MBW k; MBW k; MBW k]))) k =
+  Some (WHandled (pid_addr (rsp c), ptype (rsp c))).
+Proof. rewrite ob_deployed_true. exact mutual_handled_eventually. Qed.
+
+Lemma C20_mutual_v1_refuted_stmt :
+  exists (c : cfg) (sched : list mwho) (id : ident),
+    (sig_addr (ini c) = Some (pid_addr (ini c)) /\ ks_addr (ini c) = pid_addr (ini c)) /\
+    (sig_addr (rsp c) = Some (pid_addr (rsp c)) /\ ks_addr (rsp c) = pid_addr (rsp c)) /\
+    a_ret (mrun false c sched) = Some id /\
+    b_reg (mrun false c (sched ++ [MB; MB])) = Some (pid_addr (rsp c), ptype (rsp c)) /\
+    nth_error (bw (mrun false c sched)) 0 = Some WUnknown.
+Proof. exact usable_mutual_v1_refuted. Qed.
+
 (* ---- the boolean checker of check/Check_C20.v reflects the theorem ----------------------------- *)
 Lemma unle_inj : forall a b : bytes,
   length a = length b -> wf_bytes a -> wf_bytes b -> unle a = unle b -> a = b.
@@ -1086,6 +1429,7 @@ Qed.
    then the checker finds no violation in it: what the checker demands of the implementation
    is what C20_usable proves of the model. *)
 Theorem checker_reflects (c : case) (sched : list who) :
+  (klass c =? 3) = false ->
   in_claim c = true ->
   explains c sched = true ->
   (forall w0, start_world c = Some w0 ->
@@ -1093,8 +1437,9 @@ Theorem checker_reflects (c : case) (sched : list who) :
   addr_shape (i_addr c) -> Forall obs_shape (outcomes c) ->
   violation c = None.
 Proof.
-  unfold explains, violation, in_claim. intros Hc He Hf Hi Ho.
+  unfold explains, violation, in_claim. intros Hk Hc He Hf Hi Ho.
   rewrite Hc. apply andb_prop in Hc. destruct Hc as (Hok & Hks).
+  rewrite Hk, orb_false_r in Hks.
   destruct (start_world c) as [w0|] eqn:Es; [|discriminate].
   specialize (Hf w0 eq_refl).
   pose proof (start_world_inv c w0 Es) as H0.
@@ -1125,7 +1470,7 @@ Proof.
     apply andb_prop in Hs. destruct Hs as (Ea & Et).
     apply N.eqb_eq in Ea. apply N.eqb_eq in Et. subst.
     destruct (G3 _ eq_refl) as (Ej & _). unfold cfg_of in Ej; cbn in Ej.
-    injection Ej as Ea Et. cbn. rewrite Et, N.eqb_refl.
+    injection Ej as Ea Et. cbn. unfold expected_addr, expected_type. rewrite Hk, Et, N.eqb_refl.
     destruct Hi as (Hl1 & Hw1). destruct Hsh as (Hl2 & Hw2).
     assert (b = i_addr c) as -> by (apply unbe_inj; auto; congruence).
     rewrite bytes_eqb_refl. reflexivity.
